@@ -305,6 +305,38 @@ func checkConverterTableCase(p *core.Program, r *core.Report) {
 		}
 	}
 	r.Add("T4", "layout tables are walked like containers", p.Pos(call.Pos()), reachStart, "StartNode must stay reachable after Classify()!=Data")
+	// every table the visitor walks into was classified first (decision paths of the visitor for
+	// the tag: a path that starts the node or lets the walk descend has decided Classify()==Data false)
+	if tbl := converterSwitch(p, r, "T4"); tbl != nil {
+		n, bad := 0, 0
+		var wit []string
+		for _, pa := range tbl.PathsFor("table") {
+			walked := pathResult(pa) == "return true"
+			for _, ev := range builderCalls(pa) {
+				if strings.HasPrefix(ev, "StartNode(") {
+					walked = true
+				}
+			}
+			if !walked {
+				continue
+			}
+			n++
+			decided := false
+			for _, l := range pa.Lits {
+				if reData.MatchString(l.Atom) && !l.Val {
+					decided = true
+				}
+			}
+			if !decided {
+				bad++
+				if len(wit) < 2 {
+					wit = append(wit, pa.String())
+				}
+			}
+		}
+		r.Add("T4", "a table is walked as a container only after the classifier said it is not a data table", tbl.Pos, n > 0 && bad == 0,
+			fmt.Sprintf("%d visitor paths walk into a <table>, %d of them without the classification", n, bad), wit...)
+	}
 }
 
 func reachableFrom(from, to *ssa.BasicBlock) bool {
